@@ -343,6 +343,18 @@ theorem rom_accepts_cert_model (hc : CryptoLaws c) (s : ObjState) (hg : Good c s
     ⟨by rw [hcfg]; exact hpck, by rw [hcfg]; exact hrights, by rw [hcfg]; exact henc,
      by rw [hcfg, hcert, hrot]; exact hrc⟩ r
 
+/-! ## 7. the loader is total with guaranteed progress (no input can make it loop) -/
+
+/-- every command the decoder accepts consumes at least its 16-byte header (an unknown tag, a zero tag included, is refused with
+    `cmdTag`; a declared data length beyond the remaining bytes with `truncated`) -/
+theorem decoder_progress (b rest : Sb31.Bytes) (cmd : Cmd) (h : parseCmd b = .ok (cmd, rest)) : rest.length + 16 ≤ b.length :=
+  parseCmd_progress b rest cmd h
+
+/-- the fuel of the command-sequence decoder never decides: one unit per 16 remaining bytes is enough, and the loader gives one unit
+    per byte (`parseCmds body.length body`), so the number of steps is bounded by the number of bytes of the section -/
+theorem decoder_fuel_suffices (f k : Nat) (b : Sb31.Bytes) (hb : b.length ≤ 16 * f) : parseCmds (f + k) b = parseCmds f b :=
+  parseCmds_fuel_suffices f k b hb
+
 /-! ## non-vacuity: the hypotheses are satisfiable by a concrete, non-trivial container -/
 
 /-- a toy instance of the primitives (identity "cipher" on 16-byte blocks, constant hash, constant signatures);
